@@ -247,7 +247,15 @@ def _shortlex_unit():
                 out = [('Q pointers', And(0 <= head, head <= tail))]
                 f, cs = q(phase, [i_], lambda i: Implies(inq(i), T.wf(Qc(i), Qs(i))), lambda i: [Qc(i), Qs(i)])
                 if cs and cur:
-                    path.assume(T.st_child_inside(cur[0], cur[1], cs[0] - G['at_pop']['tail'] + cur[1], IntVal(0)))
+                    # two cases, each with its own instance: an entry that was on the queue at the pop, or a child pushed by this iteration
+                    t0 = G['at_pop']['tail']
+                    tch = cs[0] - t0 + cur[1]
+                    path.assume(T.st_child_inside(cur[0], cur[1], tch, IntVal(0)))
+                    zq = G['at_pop']
+                    out.append(('A entries well-formed (kept entries)', Implies(And(inq(cs[0]), cs[0] < t0), And(Qc(cs[0]) == zq['Qc'](cs[0]), Qs(cs[0]) == zq['Qs'](cs[0]),
+                                                                                                                     T.wf(zq['Qc'](cs[0]), zq['Qs'](cs[0]))))))
+                    out.append(('A entries well-formed (children)', Implies(And(inq(cs[0]), cs[0] >= t0), And(Qc(cs[0]) == T.child(cur[0], tch), Qs(cs[0]) == tch + 1,
+                                                                                                                 T.wf(T.child(cur[0], tch), tch + 1)))))
                 out.append(('A entries well-formed', f))
                 # C coverage
                 if phase == 'assume':
